@@ -125,9 +125,9 @@ CLAIMED = {
     technique='Coq proof (induction over token lists, composition with C02/C10 round trips) + vm_compute correspondence + grammar oracle', design='§5 C05'),
  'C14': dict(
     text=('Coq theorems over the model of Array on its data bits with item width w: with data = concat(items) ++ trailing (each item w bits, trailing shorter than w), len, trailing_bits, indexing (negative and out of range), '
-          'item assignment, item deletion, append (refused with trailing bits) and insert (clamped like list.insert) are exactly the Python list operation on the items and leave the trailing bits untouched. '
+          'item assignment, item deletion, append (refused with trailing bits), insert (clamped like list.insert), pop and slicing with ANY key (any start/stop, positive or negative step; the result carries no trailing bits) are exactly the Python list operation on the items and leave the trailing bits untouched. '
           'Random programs of list operations and element-wise operators on 28 dtypes (incl. bytesN, struct codes, 8-bit floats), with and without trailing bits, are compared with a Python list + encoder reference after every step.'),
-    note='PARTIAL: slicing with steps, extend, pop, reverse, count, equals, copy, dtype change and the element-wise operators are oracle-checked, not proved. Items are identified with their encodings (codec round trips are C02/C11).',
+    note='PARTIAL: slice assignment/deletion, extend, reverse, count, equals, copy, dtype change and the element-wise operators are oracle-checked, not proved. Items are identified with their encodings (codec round trips are C02/C11).',
     technique='Coq proof (abstraction function over concat) + vm_compute correspondence + list-model oracle', design='§5 C14'),
  'C19': dict(
     text=('Coq theorems over the model of __str__: for every content of at most MAX_CHARS*4 bits the printed hex digits and binary tail parse back to exactly the content and the form is not marked truncated; longer contents are marked truncated and show exactly the first MAX_CHARS*4 bits. '
